@@ -553,7 +553,12 @@ func (s *Sim) restartWanted() bool {
 		return false
 	}
 	for _, j := range s.jobs {
-		if j.kind == simrt.KindImport || j.kind == simrt.KindConvert {
+		if j.kind == simrt.KindImport {
+			return false
+		}
+		// a converter job that has not started yet has stored nothing: the next
+		// start must queue its streams again by itself
+		if j.kind == simrt.KindConvert && j.state != jBegin {
 			return false
 		}
 	}
